@@ -21,6 +21,7 @@ RULE = ("synthetic VCF text (1..3 sample columns, 0..2 PEDIGREE tags incl. tags 
         "tumor_boost through cmdutil.load_het_snps; variant tables of 0..60 rows (zygosity 0/0.5/1, dyadic and "
         "arbitrary frequencies, with/without normal columns, rows removed beforehand so that index labels have "
         "gaps) x segment tables (tiling, gapped, overlapping, nested, foreign / missing chromosomes, empty) x "
+        "(+ a few tables with interleaved chromosomes: model only, spec not applied) x "
         "above_half x tumor_boost through VariantArray.baf_by_ranges and mirrored_baf; the whole chain VCF -> "
         "load_het_snps -> do_call(variants=, purity=) -> baf column; _tumor_boost and rescale_baf on number "
         "grids. non-trivial = a read with >= 1 record and an existing sample, a BAF with >= 1 heterozygous row "
@@ -30,7 +31,11 @@ ASSUMPTIONS = [
     "the VCF has at least one sample column and only GT, AD, DP sample fields (no CLCAD2 / AO), no INFO/END, INFO/AF",
     "frequencies handed to baf_by_ranges / mirrored_baf are finite (a record with DP=0 and a positive alt count "
     "gives an infinite alt_freq: covered by the reading op only)",
-    "variant tables are sorted the way tabio.read returns them",
+    "variant tables are sorted the way tabio.read returns them; segment tables keep each chromosome's rows "
+    "together (interleaved tables are run for the correspondence only: results come back chromosome by chromosome)",
+    "TumorBoost is not requested on a table without any row (_tumor_boost raises TypeError inside pandas there); "
+    "an empty VCF read with skip_somatic loses its optional columns (modelled as is: `paired` is false)",
+    "the mirroring side is an open observable when above_half is None: a value and 1 - value agree",
     "float thresholds: the model compares exact count/depth with the exact value of the threshold double; cases "
     "within 1e-9 of a threshold or with a median within 1e-9 of 0.5 are skipped as knife-edge unless all inputs "
     "are dyadic (float arithmetic exact)",
@@ -441,8 +446,14 @@ def corpus():
     homs = {"samples": ["S0"], "tags": [], "ad_number": "R", "contigs": ["chr1"],
             "records": [_rec("chr1", 50, "A", "G", [_smp([1, 1], [0, 32], 32)]),
                         _rec("chr1", 60, "A", "G", [_smp([0, 0], [32, 0], 32)])]}
+    # fix V: the normal's DP is "." in every record -> n_depth / n_alt_freq columns were object-typed (all None),
+    # and _tumor_boost raised TypeError
+    noad = {"samples": two, "tags": [[["Derived", "T"], ["Original", "N"]]], "ad_number": "R", "contigs": ["chr2"],
+            "records": [_rec("chr2", 1010, "G", "T", [_smp([0, 1], [17, 13], 30), _smp([0, 1], [15, 15], None)],
+                             fmt=("GT", "DP"))]}
     base = {"sid": None, "nid": None, "min_depth": 20, "zyg_freq": None, "tumor_boost": False}
     return [
+        {"op": "vcf_hets", "tag": "corpus-V", "in": dict(base, vcf=noad, tumor_boost=True, min_depth=0)},
         {"op": "vcf_hets", "tag": "corpus-W", "in": dict(base, vcf=v, sid="T", nid="N", tumor_boost=True)},
         {"op": "vcf_baf", "tag": "corpus-W", "in": {"table": tb, "segs": [["chr1", 0, 25], ["chr1", 25, 100]],
                                                      "above": None, "boost": True}},
@@ -701,11 +712,19 @@ def judge(case, impl, resp):
                     disagree.append(f"row {k}: impl {ri} model {rm}")
                     break
     else:
+        # the property leaves the mirroring side open when none is asked for: a value and its mirror
+        # image 1 - value are the same observable (per range for BAFs, for the whole array for mirrored_baf)
+        side_free = case["op"] in ("vcf_baf", "vcf_mirror", "vcf_pipeline") and case["in"].get("above") is None
+        flip = lambda b: None if b is None else frac(1 - Fraction(b))
         if len(impl) != len(out):
             disagree.append(f"length impl {len(impl)} model {len(out)}")
+        elif case["op"] == "vcf_mirror":
+            if not (all(_close(a, b) for a, b in zip(impl, out)) or
+                    (side_free and all(_close(a, flip(b)) for a, b in zip(impl, out)))):
+                disagree.append(f"mirrored values differ: impl {impl[:6]} model {out[:6]}")
         else:
             for k, (a, b) in enumerate(zip(impl, out)):
-                if not _close(a, b):
+                if not (_close(a, b) or (side_free and _close(a, flip(b)))):
                     disagree.append(f"value {k}: impl {a} model {b}")
                     break
     # knife-edge: a frequency within 1e-9 of (but not exactly on) a zygosity threshold, or a median
